@@ -421,11 +421,20 @@ def _check_islands(o, ctx, comps, isles, img, rms, z=None):
         cand = None
         with np.errstate(all='ignore'):
             pos = np.argwhere(sub == np.float32(r['peak_flux']))
+        cands = []
         for q in pos:
             p = (int(q[0]) + xmin, int(q[1]) + ymin)
-            if p in by_pixel:
-                cand = by_pixel[p]
+            if p in by_pixel and by_pixel[p] not in cands:
+                cands.append(by_pixel[p])
+        # clipped plateaux give several islands the same peak value, and another island's plateau can reach into this
+        # island's box: among the islands holding such a pixel prefer the one whose own tight box is the reported extent
+        for c_ in cands:
+            (a0, a1), (b0, b1) = floodfill.tight_box(c_)
+            if [a0, a1, b0, b1] == [xmin, xmax, ymin, ymax]:
+                cand = c_
                 break
+        if cand is None and cands:
+            cand = cands[0]
         if cand is None:
             o.violate('island_peak_pixel_not_on_a_detected_island', w)
             continue
